@@ -387,7 +387,8 @@ def registration(prog, chk):
                 if any(body.dominates(c0, bb) for c0 in conts):
                     ok = True
                     how = ec.path.split("::")[-1]
-            if not ok and _withdrawn_when_deferred(prog, body):
+            owner_ = prog.bodies.get(body.root) if body.kind == "Closure" and body.root in prog.bodies else body
+            if not ok and (_withdrawn_when_deferred(prog, body) or (owner_ is not body and _withdrawn_when_deferred(prog, owner_))):
                 chk.ok("A13.registration", key, where, "the element is registered provisionally (so that it is a <reuse> target at once); when its evaluation fails the registration is withdrawn before the element is queued for retry, so nothing resolves against the unresolved element")
                 continue
             if ok:
@@ -403,7 +404,17 @@ def registration(prog, chk):
     # registration and evaluation of a tag happen in the same pass of the same loop
     pt = prog.body("svgdx::transform::process_tags")
     ups = pt.call_sites(R.path_is(UPD))
+    # ... also through a closure handed to a combinator right there (`t.get_element().inspect(|el| context.update_element(el))`)
+    for (xb_, xt_, xc_) in pt.call_sites(lambda c: True):
+        for a_ in xt_.get("args", []):
+            cid_ = R.closure_id_of_operand(pt, a_)
+            cb_ = prog.bodies.get(cid_) if cid_ is not None else None
+            if cb_ is not None and cb_.call_sites(R.path_is(UPD)):
+                ups.append((xb_, xt_, xc_))
     gens = pt.call_sites(lambda c: (c.decl_path == "svgdx::transform::EventGen::generate_events" or c.path.endswith(" as svgdx::transform::EventGen>::generate_events")))
+    if not ups or not gens:
+        chk.undecided("A13.registration-order", "process_tags", pt.where(), "process_tags does not call update_element / generate_events itself: in which pass an element is registered is not read here")
+        return
     ok = bool(ups) and bool(gens)
     for (ub, ut, uc) in ups:
         lu = R.loop_containing(pt, ub)
